@@ -40,7 +40,7 @@ CLAIMED = {
     ),
     "C07": (
         "exhaustive enumeration of per-locale key-set patterns x inherits x suppress_key_warnings build on the real loader (L1) against an exact-multiset diagnostics model, plus positive/negative compile probes of the generated key set (L3)",
-        "Every combination of presence/null/absence/group-value swap over a nested key universe, plural states and eight surplus shapes (incl. a surplus plural with a form its locale never selects) for a non-default locale (thorough: a third locale with every inherits map), with and without namespaces, the locales declared in every order, in the normal and the suppress_key_warnings build: the multiset of MissingKey/SurplusKey/UnusedForm diagnostics, the accessible key set, SubKeyMissmatch errors and every rendered key must be exactly what the statement says.",
+        "Every combination of presence/null/absence/group-value swap over a nested key universe, plural states and eight surplus shapes (incl. a surplus plural with a form its locale never selects) for a non-default locale (thorough: a third locale with every inherits map), with and without namespaces, the locales declared in every order, in the normal and the suppress_key_warnings build: the multiset of MissingKey/SurplusKey/UnusedForm diagnostics, the accessible key set, SubKeyMissmatch errors and every rendered key must be exactly what the statement says; (L3) namespaces with their own key and argument sets declared in a non-alphabetical order (thorough: all 6 orders of 3) compile and render each key with exactly its own arguments.",
         L1_NOTE,
         "DESIGN.md §3 C07",
     ),
@@ -64,7 +64,7 @@ CLAIMED = {
     ),
     "C11": (
         "exhaustive sweep of every Unicode scalar value and nasty two-character strings through the real loader (L1), the generated code's table sizes and indices (L2, syn visitor), the build helper's written files (vbuild, strict JSON reader) and the tables embedded in server-rendered pages (L3), checking every literal index against the exported table",
-        "Every Unicode scalar as a one-character translation and all pairs over 14 hostile characters, in flat, nested-subkey, namespaced, defaulted and foreign-key-duplicated layouts: each Literal::String(s,i) must satisfy strings[i]==s with i in range, and the string count recorded in every (sub-)locale must equal the table length; plus every assignment of 3 shared strings / an interpolation / null to 2 keys in 3-4 locales (x inherits x namespaces) and, for the build helper, every sequence of <= 3 exports of 4 project variants into one output directory; every assignment of 7 literal kinds to one key in 3 locales; (L3) the tables embedded in server-rendered pages (dynamic_load + ssr probe crates, every ordered subset of touched units incl. units with empty tables, eager and lazy reads) must decode to the tables the server function exports. The same invariants are checked on every project of every other L1 check.",
+        "Every Unicode scalar as a one-character translation and all pairs over 14 hostile characters, in flat, nested-subkey, namespaced, defaulted and foreign-key-duplicated layouts: each Literal::String(s,i) must satisfy strings[i]==s with i in range, and the string count recorded in every (sub-)locale must equal the table length; plus every assignment of 3 shared strings / an interpolation / null to 2 keys in 3-4 locales (x inherits x namespaces) and, for the build helper, every sequence of <= 3 exports of 4 project variants into one output directory; every assignment of 7 literal kinds to one key in 3 locales; (L3) the tables embedded in server-rendered pages (dynamic_load + ssr probe crates, every ordered subset of touched units incl. units with empty tables, eager and lazy reads) must decode to the tables the server function exports. For every project of the model corpus (plurals with keys between their forms, ranges, references, namespaces, inherits) the decoded table the build helper exports equals the strings list of the macro-way parse (ICU feature checks on), file by file, order included. The same invariants are checked on every project of every other L1 check.",
         L1_NOTE + " File written by the build helper / generated-code sizes: see engines vbuild / L2 in the evidence when present.",
         "DESIGN.md §3 C11",
     ),
@@ -88,13 +88,13 @@ CLAIMED = {
     ),
     "C16": (
         "stateless exhaustive exploration of operation histories (depth <= 4/5) over a tree of contexts, replayed on the real reactive runtime under a harness-owned deterministic executor",
-        "Every history of set_locale / set_locale_untracked / set-through-scoped-view / set through a handle looked up with use_i18n() in the context's owner / sub-context creation (none, constant, wired initial locale; directly, through the generated <I18nSubContextProvider> component placed in the parent's owner, or with provide_i18n_subcontext) / wired-signal writes / accessor creation / poll up to the depth bound is replayed from scratch on a fresh Owner; after every step every context, use_i18n() in its owner, a fresh scoped view and every accessor created earlier (t!, t_string!, tu_string!, t_display!, scoped) is read and compared with a context -> last-locale map; subscribers created earlier (a Memo over t_string! and an Effect writing what it sees into a sink; one Memo per tracked accessor - t_string!, t_display!, t!, scoped forms, t_format_string!, t_format_display!, get_locale - holding it alone) must hold the last locale after every tracked write (the effect once effects ran; after an untracked write they may lag until the next tracked one); replay determinism is self-checked.",
+        "Every history of set_locale / set_locale_untracked / set-through-scoped-view / set through a handle looked up with use_i18n() in the context's owner / sub-context creation (none, constant, wired initial locale; directly, through the generated <I18nSubContextProvider> component placed in the parent's owner, with provide_i18n_subcontext, or inside a tracking scope - a Memo that is read again after every step, whose re-run would replace the sub-context) / wired-signal writes / accessor creation / poll up to the depth bound is replayed from scratch on a fresh Owner; after every step every context, use_i18n() in its owner, a fresh scoped view and every accessor created earlier (t!, t_string!, tu_string!, t_display!, scoped) is read and compared with a context -> last-locale map; subscribers created earlier (a Memo over t_string! and an Effect writing what it sees into a sink; one Memo per tracked accessor - t_string!, t_display!, t!, scoped forms, t_format_string!, t_format_display!, get_locale - holding it alone) must hold the last locale after every tracked write (the effect once effects ran; after an untracked write they may lag until the next tracked one); replay determinism is self-checked.",
         "Seam RT (ssr, reactive_graph/effects). All tasks, including those leptos hands to the thread pool, run on the calling thread's queue when the harness polls. Wired-signal window: either value admitted until the next poll.",
         "DESIGN.md §3 C16",
     ),
     "C14": (
         "explicit-state exploration of (URL, locale) under locale-switch sequences plus exhaustive single calls, on the real path functions (verif_hooks feature) and on a natively built <I18nRoute> (generate_routes / match_nested over a closed path universe, plain leptos_router as reference)",
-        "For 7 locale sets (names that are prefixes of each other and of path words), 6 base-path spellings and a route table with static / param / optional / splat / localized segments: get_locale_from_path on every short path (words in several letter cases) - under the base, under near misses of it (segments glued, extended, missing; 2- and 3-segment bases) and elsewhere - against a whole-segment oracle, and the server-side redirect of unprefixed requests (the matched view of the real <I18nRoute> chosen under a RequestUrl and a recording redirect hook), and a BFS over every sequence of <= 3 (thorough 4) locale switches from every page URL in every locale (with/without query, fragment, route table), each step calling the real get_new_path: only the prefix and the localized segments may change, A->B->A returns the original URL, the locale read back is the one switched to, and the real route objects match the URL before and after as the same route with the same parameters. The real <I18nRoute> (children written with i18n_path!) is built natively per locale set: its generate_routes() must be the N+1 families, the segment tables it stores (used for the switches above) the per-locale tables, and match_nested() on every path of <= 3-4 segments over locale names, localized words, glued / truncated / upper-cased names must read a locale only from a first segment equal to a locale name.",
+        "For 7 locale sets (names that are prefixes of each other and of path words), 6 base-path spellings and a route table with static / param / optional / splat / localized segments: get_locale_from_path on every short path (words in several letter cases) - under the base, under near misses of it (segments glued, extended, missing; 2- and 3-segment bases) and elsewhere - against a whole-segment oracle, and the server-side redirect of unprefixed requests and the absence of one for requests under every explicit locale prefix, the default's too (the matched view of the real <I18nRoute> chosen under a RequestUrl and a recording redirect hook), and a BFS over every sequence of <= 3 (thorough 4) locale switches from every page URL in every locale (with/without query, fragment, route table), each step calling the real get_new_path: only the prefix and the localized segments may change, A->B->A returns the original URL, the locale read back is the one switched to, and the real route objects match the URL before and after as the same route with the same parameters. The real <I18nRoute> (children written with i18n_path!) is built natively per locale set: its generate_routes() must be the N+1 families, the segment tables it stores (used for the switches above) the per-locale tables, and match_nested() on every path of <= 3-4 segments over locale names, localized words, glued / truncated / upper-cased names must read a locale only from a first segment equal to a locale name.",
         "Seam RT via cargo feature verif_hooks (thin re-exports of the private functions; named in the property's hook_needed). The browser glue (effects, navigate, popstate, view_wrapper) needs web_sys and is modelled by the driver. Plain leptos_router (the same table with static segments in one locale's words) is the trusted reference for what a route table matches.",
         "DESIGN.md §3 C14",
     ),
